@@ -86,6 +86,8 @@ def bfs(model, depth, workers=None, budget_s=None):
                     if stats.viol_fps[v["fingerprint"]] <= 3 and len(stats.violations) < 200:
                         rec = dict(v)
                         rec["history"] = [short(h) for h in hist] + [short(op)]
+                        rec["raw_history"] = [_jsonable(h) for h in hist] + [_jsonable(op)]
+                        rec["model"] = getattr(model, "replay_id", None)
                         rec["choices"] = None
                         rec["scenario"] = {"history": rec["history"]}
                         stats.violations.append(rec)
@@ -103,6 +105,34 @@ def bfs(model, depth, workers=None, budget_s=None):
             pool.join()
     stats.extra = {"bfs_depth_completed": level, "distinct_states": len(seen), "frontier_left": len(frontier)}
     return stats
+
+
+def _jsonable(op):
+    if isinstance(op, tuple):
+        return {"t": [_jsonable(x) for x in op]}
+    if isinstance(op, list):
+        return [_jsonable(x) for x in op]
+    return op
+
+
+def _unjson(op):
+    if isinstance(op, dict) and set(op) == {"t"}:
+        return tuple(_unjson(x) for x in op["t"])
+    if isinstance(op, list):
+        return [_unjson(x) for x in op]
+    return op
+
+
+def replay(model, raw_history):
+    """Re-execute one recorded history (fresh import if the model asks for it) and judge its last transition."""
+    hist = [_unjson(h) for h in raw_history]
+    if getattr(model, "fresh_import", False):
+        fresh_joserfc()
+    st = model.make()
+    for h in hist[:-1]:
+        model.apply(st, h)
+    obs = model.apply(st, hist[-1])
+    return obs, model.check(tuple(hist[:-1]), hist[-1], obs, st) or []
 
 
 # ---------------------------------------------------------------------------
